@@ -23,7 +23,7 @@ PROP = "C06"
 MANIFEST = dict(
     level="model_checking", design_ref="DESIGN.md 8 (C06), 7 (Tween)",
     technique="TLA+ model of kira::Parameter (TLC, exact rational easings over integer time) + TLC-generated set/update behaviours (bounded exhaustive and seeded random walks) replayed on the real public Parameter<T> for ten Tweenable types + seeded random histories + TLC trace validation against the property-level monitor P_C06",
-    text="TLC explores every sequence of set() calls (immediate, delayed, clock start; durations including zero and shorter than one update; linear and integer-power easings) and every partition of time into updates for small constants against the property-level monitor (old value until the start, reference curve within the start-time quantisation slack, exact target and finish flag at the end, interval, monotone approach, previous value = last value, zero duration at the next update, retarget from the current value) and structural invariants; TLC-generated behaviours and seeded random histories are executed on the real kira::Parameter<T> (f64, f32, Decibels, Panning, Mix, PlaybackRate, Semitones, Duration, ClockSpeed, Vec3) and every recorded session is validated by TLC against P_C06. In situ, one linear decibel tween of every volume parameter and pause/resume fade inside the audio graph (track, send track, route, main track, sound) is observed frame by frame at the output for internal buffers 4/16, five callback patterns and durations 0-64 frames, with the owning track paused meanwhile or not, and judged by TLC against the reference curve 'to within one update' (P_C06I). Exhaustive for small grids/bounds, sampled beyond.",
+    text="TLC explores every sequence of set() calls (immediate, delayed, clock start; durations including zero and shorter than one update; linear and integer-power easings) and every partition of time into updates for small constants against the property-level monitor (old value until the start, reference curve within the start-time quantisation slack, exact target and finish flag at the end, interval, monotone approach, previous value = last value, zero duration at the next update, retarget from the current value) and structural invariants; TLC-generated behaviours and seeded random histories are executed on the real kira::Parameter<T> (f64, f32, Decibels, Panning, Mix, PlaybackRate, Semitones, Duration, ClockSpeed, Vec3) and every recorded session is validated by TLC against P_C06. In situ, one linear decibel tween of every volume parameter and pause/resume fade inside the audio graph (track, send track, route, main track, sound) is observed frame by frame at the output for internal buffers 4/16, five callback patterns and durations 0-64 frames, with the owning track paused meanwhile or not, and judged by TLC against the reference curve 'to within one update' (P_C06I). Exhaustive for small grids/bounds, sampled beyond. In-situ additions: a superseded command written in the same window, decibel tweens around -70 dB, clock speeds whose first tween crosses units, and positions / orientations of a spatial scene (listener turn, listener move, emitter move) judged for their ends and frame-to-frame continuity.",
     note="Values are exact dyadic rationals in the TLC-generated sessions (bit-exact comparison) and rounded to 1/4096 with tolerance 3 in the random sessions; real-power easings are only checked for end points, interval and direction; Quat (slerp) is not covered. The tweener modulator duplicates Parameter's logic and is not driven separately. Parameters linked to modulators (Value::FromModulator) are out of scope. A clock that pauses, is reset or disappears after a clock-started tween began is treated as a finding candidate (findings/C06-clock), not generated at property level unless listed in known_findings.json.")
 
 TYPES = ["f64", "f32", "db", "pan", "mix", "rate", "semi", "dur", "cspeed", "vec3", "db_low"]   # db_low: decibels around -70 dB
